@@ -20,3 +20,6 @@ func VerifC01HasSupportedDS(dsset []dns.RR) bool { return hasSupportedDS(dsset) 
 func VerifC01RootParentDS(r *Resolver, parentDS []dns.RR, zone string) ([]dns.RR, error) {
 	return r.rootParentDS(context.Background(), parentDS, zone)
 }
+
+// VerifC01InsecureProofName exposes insecureProofName (accessor only).
+func VerifC01InsecureProofName(q dns.Question) string { return insecureProofName(q) }
